@@ -9,8 +9,8 @@ SEQ_INVS = ("INVARIANTS NoLossNoDupInOrder OnlyRetentionRemoves PrunedAreOldestO
 STEP_INVS = "INVARIANTS NoLossNoDupInOrder AckedPrefix PrunedAreOldestOwn RetentionAfterRotation ActiveNeverPruned MutualExclusion\n"
 
 # (max_bytes, max_files, dur_on, toor, mode)
-CONFIGS = [(0, 0, False, False, 0), (4, 0, False, False, 0o640), (4, 2, False, True, 0), (4, 1, True, True, 0),
-           (4, 1, True, False, 0o644), (4, 3, False, False, 0), (0, 2, True, True, 0), (1, 1, False, True, 0)]
+CONFIGS = [(0, 0, False, False, 0), (4, 0, False, False, 0o664), (4, 2, False, True, 0), (4, 1, True, True, 0),
+           (4, 1, True, False, 0o646), (4, 3, False, False, 0), (0, 2, True, True, 0), (1, 1, False, True, 0)]
 
 
 def b(x):
